@@ -1,5 +1,6 @@
 // C17 harness: GEOSMakeValid_r / GEOSMakeValidWithParams_r of the real library, one request per line, one result line per request.
 //   request:  MV <method: L|S|D> <keep: 0|1> <wkt>        L = linework, S = structure (GEOSMakeValidWithParams_r), D = GEOSMakeValid_r
+//             MV H:<history> <ignored> <wkt>              a history of params setter calls (see fixHistory)
 //   result :  <tokens of the result> | V=<isValid(result)> IV=<isValid(input)> EQ=<GEOSEquals(input,result)> DI=<dim in> DO=<dim out>
 //             (EQ=2: GEOSEquals_r raised an exception, EQ=3: not evaluated)
 //             IDEM=<fix(result) equals result exactly after normalisation> IDEMV=<isValid(fix(result))> | <tokens of fix(result)>
@@ -54,7 +55,25 @@ static void geomTok(const GEOSGeometry* g, std::ostringstream& o) {
     }
 }
 static std::string tok(const GEOSGeometry* g) { std::ostringstream o; geomTok(g, o); return o.str(); }
-static GEOSGeometry* fix(const GEOSGeometry* g, char method, int keep) {
+// a history of setter calls on ONE params object: "H:" then comma separated  K0 | K1 (setKeepCollapsed)  ML | MS (setMethod)
+// C (an intermediate GEOSMakeValidWithParams_r call with the settings of that moment, result discarded).  The call whose
+// result is returned is made after the last item, with the same object.
+static GEOSGeometry* fixHistory(const GEOSGeometry* g, const std::string& hist) {
+    GEOSMakeValidParams* p = GEOSMakeValidParams_create_r(h);
+    std::stringstream ss(hist.substr(2)); std::string it;
+    while (std::getline(ss, it, ',')) {
+        if (it == "K0" || it == "K1") GEOSMakeValidParams_setKeepCollapsed_r(h, p, it == "K1");
+        else if (it == "ML") GEOSMakeValidParams_setMethod_r(h, p, GEOS_MAKE_VALID_LINEWORK);
+        else if (it == "MS") GEOSMakeValidParams_setMethod_r(h, p, GEOS_MAKE_VALID_STRUCTURE);
+        else if (it == "C") { GEOSGeometry* t = GEOSMakeValidWithParams_r(h, g, p); if (t) GEOSGeom_destroy_r(h, t); }
+    }
+    GEOSGeometry* r = GEOSMakeValidWithParams_r(h, g, p);
+    GEOSMakeValidParams_destroy_r(h, p);
+    return r;
+}
+static GEOSGeometry* fix(const GEOSGeometry* g, const std::string& m, int keep) {
+    char method = m.empty() ? 'D' : m[0];
+    if (method == 'H') return fixHistory(g, m);
     if (method == 'D') return GEOSMakeValid_r(h, g);
     GEOSMakeValidParams* p = GEOSMakeValidParams_create_r(h);
     GEOSMakeValidParams_setMethod_r(h, p, method == 'L' ? GEOS_MAKE_VALID_LINEWORK : GEOS_MAKE_VALID_STRUCTURE);
@@ -76,7 +95,7 @@ int main() {
         GEOSGeometry* g = GEOSWKTReader_read_r(h, rd, wkt.c_str());
         GEOSWKTReader_destroy_r(h, rd);
         if (!g) { printf("READFAIL %s\n", lastErr.c_str()); fflush(stdout); continue; }
-        GEOSGeometry* r = fix(g, m.empty() ? 'D' : m[0], keep);
+        GEOSGeometry* r = fix(g, m, keep);
         if (!r) { printf("NULL %s\n", lastErr.c_str()); GEOSGeom_destroy_r(h, g); fflush(stdout); continue; }
         std::ostringstream o;
         int iv = (int)GEOSisValid_r(h, g);
@@ -85,7 +104,7 @@ int main() {
         // GEOSEquals_r only where the property needs it (valid input)
         int eq = iv == 1 ? (int)GEOSEquals_r(h, g, r) : 3;
         o << " EQ=" << eq << " DI=" << GEOSGeom_getDimensions_r(h, g) << " DO=" << GEOSGeom_getDimensions_r(h, r);
-        GEOSGeometry* r2 = fix(r, m.empty() ? 'D' : m[0], keep);
+        GEOSGeometry* r2 = fix(r, m, keep);
         if (!r2) o << " IDEM=-1 IDEMV=-1 | NULL";
         else {
             GEOSGeometry* a = GEOSGeom_clone_r(h, r); GEOSGeometry* b = GEOSGeom_clone_r(h, r2);
